@@ -1,7 +1,7 @@
 #!/bin/bash
 # usage: confirm_demo.sh <Cxx> <a|b>  -- runs the sub-agent's demonstration with and without its patch
 c=$1; v=$2
-O=/tmp/seed/$c/OUT/$v
+O=${SEEDROOT:-/tmp/seed}/$c/OUT/$v
 W=/tmp/demo/$c$v
 rm -rf "$W"; mkdir -p /tmp/demo
 git -C /repo worktree prune
@@ -17,8 +17,8 @@ run_demo() {
     ( cd "$W/jmespath" && cargo $tc test --offline $feat --test seeded_demo 2>&1 | grep -E "^test result|error(\[|:)|panicked" | head -3 | tr '\n' ' ' )
     rm -f "$W/jmespath/tests/seeded_demo.rs"
   elif [ -f "$O/demo/demo.sh" ]; then
-    sed "s#/tmp/seed/$c#$W#g" "$O/demo/demo.sh" > "$W/demo.sh"
-    mkdir -p "$W/OUT/$v"; cp -r "$O/demo" "$W/OUT/$v/demo"; sed -i "s#/tmp/seed/$c#$W#g" "$W/OUT/$v/demo/"* 2>/dev/null
+    sed "s#${SEEDROOT:-/tmp/seed}/$c#$W#g" "$O/demo/demo.sh" > "$W/demo.sh"
+    mkdir -p "$W/OUT/$v"; cp -r "$O/demo" "$W/OUT/$v/demo"; sed -i "s#${SEEDROOT:-/tmp/seed}/$c#$W#g" "$W/OUT/$v/demo/"* 2>/dev/null
     ( cd "$W" && sh "$W/demo.sh" >/dev/null 2>&1; echo "demo.sh exit=$?" )
   else
     echo "no-demo-found"
